@@ -328,8 +328,12 @@ pub fn minimise(env: &Env, plan: &Plan, v0: &Violation, max_execs: u64, max_time
         }
         let mut v = Vec::new();
         let mut start = 0;
+        let terminator = |op: &Op| matches!(op, Op::Finish { .. } | Op::Commit { .. } | Op::Bs { ctrl: true, .. });
         for (i, op) in p.ops.iter().enumerate() {
-            let boundary = matches!(op, Op::Mark { tag: 1 } | Op::Spawn { .. } | Op::Finish { .. } | Op::Commit { .. } | Op::Bs { ctrl: true, .. });
+            // (the terminators of both hosts at the end of a word stay together: a word that is
+            // ended on one side only is not "the same syllables in both orders" any more)
+            let boundary = matches!(op, Op::Mark { tag: 1 } | Op::Spawn { .. })
+                || (terminator(op) && !p.ops.get(i + 1).map(|n| terminator(n)).unwrap_or(false));
             if boundary {
                 v.push((start, i + 1));
                 start = i + 1;
@@ -390,7 +394,7 @@ pub fn minimise(env: &Env, plan: &Plan, v0: &Violation, max_execs: u64, max_time
                 let mut p = best.clone();
                 let mut changed = false;
                 for op in p.ops.iter_mut() {
-                    if let Op::Spawn { cfg, .. } = op {
+                    if let Op::Spawn { cfg, .. } | Op::Update { cfg, .. } = op {
                         if cfg.opts & (1 << b) != 0 {
                             cfg.opts &= !(1 << b);
                             changed = true;
